@@ -592,7 +592,12 @@ func (m *ReconcilePodENI) gcCRPodENIs(ctx context.Context) {
 							continue
 						}
 						now := time.Now()
-						if podENI.Status.PodLastSeen.Add(duration).After(now) {
+						lastSeen := podENI.Status.PodLastSeen
+						if lastSeen.IsZero() {
+							// not bound or visited yet, the pod was there when the cr was created
+							lastSeen = podENI.CreationTimestamp
+						}
+						if lastSeen.Add(duration).After(now) {
 							keep = true
 							continue
 						}
